@@ -130,6 +130,16 @@ def re_compile_text(e):
 def module_consts(tree, env):
     out = dict(env)
     found = {}
+    # constants are resolved by NAME (the library imports them from .const under their own names): an import that binds a constant's
+    # name to something else (`from .const import X as _DUPLICATE_QUESTION_INTERVAL`) would be read wrongly -> hard failure
+    for node in ast.walk(tree):
+        if isinstance(node, ast.ImportFrom):
+            for a in node.names:
+                bound = a.asname or a.name
+                if a.asname is not None and (bound in env or a.name in env) and env.get(bound, object()) != env.get(a.name, object()):
+                    f = Fail("`from %s import %s as %s` re-binds a constant name: constants are resolved by name" % (node.module, a.name, a.asname), node)
+                    f.hard = True
+                    raise f
     for node in tree.body:
         tgt = None
         if isinstance(node, ast.Assign) and len(node.targets) == 1 and isinstance(node.targets[0], ast.Name):
@@ -365,12 +375,21 @@ def find_def(tree, qual):
         node = None
         # "name@setter": the definition of that name decorated with `@<...>.setter` (a property's setter shares its getter's name)
         p, _, deco = p.partition("@")
+        hits = []
         for n in body:
             if isinstance(n, (ast.ClassDef, ast.FunctionDef, ast.AsyncFunctionDef)) and n.name == p:
                 if deco and not any(ast.unparse(d).split(".")[-1] == deco for d in getattr(n, "decorator_list", [])):
                     continue
-                node = n
-                break
+                hits.append(n)
+        if hits:
+            node = hits[0]
+            # Python binds the LAST definition of a name; a second plain definition silently replaces the one translated here.
+            # (A property's `@x.setter` / `@x.deleter` definitions share the getter's name: those are looked up with "name@setter".)
+            plain = [h for h in hits if deco or not any(ast.unparse(d).split(".")[-1] in ("setter", "deleter", "getter") for d in getattr(h, "decorator_list", []))]
+            if len(plain) > 1:
+                f = Fail("%s is defined %d times (lines %s): Python uses the last definition" % (qual, len(plain), ", ".join(str(h.lineno) for h in plain)), plain[-1])
+                f.hard = True
+                raise f
         if node is None:
             raise Fail("definition %s not found" % qual)
         body = node.body
